@@ -224,6 +224,7 @@ def run_pass(world, pspec, vector):
     mviews = [dict() for _ in progs]
     res_dig = [[None] * len(p) for p in progs]
     privs = [dict() for _ in progs]
+    ever_priv = [[] for _ in progs]     # every object that has been a private target (an in-place op may rebind the slot)
     priv_snaps = [dict() for _ in progs]
     tstates = [None] * nthreads
     sch = pspec["sched"]
@@ -343,8 +344,10 @@ def run_pass(world, pspec, vector):
                 stats["mut_ops"] += 1
             if "bind" in op and not isinstance(val, _Raised):
                 privs[k][op["bind"]] = val
+                ever_priv[k].append(val)
             if "defm" in op and not isinstance(val, _Raised):
                 privs[k][op["defm"]] = val
+                ever_priv[k].append(val)
             # I1 thread-local
             ts = snapshot.thread_state()
             if ts != tstates[k]:
@@ -401,7 +404,7 @@ def run_pass(world, pspec, vector):
                 viol.append(_viol("C20", "I1", f"global:{key}", "end", pname, f"{key} differs at end of run"))
         # I3: results still what they were when returned
         for k in range(nthreads):
-            pl = [m for m in privs[k].values()]
+            pl = [m for m in privs[k].values()] + ever_priv[k]
             for i, val in enumerate(results[k]):
                 if res_dig[k][i] is None or isinstance(val, _Raised):
                     continue
